@@ -43,6 +43,9 @@ ALLOW_COUNT = {
 }
 
 
+SHAPE_COUNT = {"rect-index": 25, "rect-coordinate-sum": 3}     # counted on the pinned tree (each covered by a listed reason above)
+
+
 def pub_fn(path):
     return re.sub(r"(::\{closure#\d+\})+$", "", path)
 
@@ -212,11 +215,105 @@ def site_of_block(fn, b):
     return line_of(fn, b)
 
 
+def _ty_mentions(t, needle):
+    return needle in repr(t)
+
+
+def rect_shape(fn, blk, kind, detail):
+    """the site indexes a collection of layout rectangles with a literal index, or adds two u16 coordinates of a rectangle: the
+    reasons recorded for those sites (Layout::split over literal constraint lists; coordinates inside the u16 terminal area) do
+    not depend on which function the code sits in"""
+    b = fn["blocks"][blk]
+    t = b["term"] or {}
+    RECT = "rect::Rect"
+    if kind == "call" and detail == "slice-index" and "call" in t:
+        args = t["call"]["args"]
+        a0 = (args[0].get("move") or args[0].get("copy")) if args else None
+        idx_const = len(args) > 1 and "const" in args[1]
+        return bool(a0) and _ty_mentions(fn["locals"][a0["local"]]["ty"], RECT) and idx_const
+    if kind == "assert" and detail.startswith("BoundsCheck") and "assert" in t:
+        d = t["assert"].get("detail") or {}
+        idx = d.get("index") or {}
+        mentions = any(_ty_mentions(l["ty"], RECT) for l in [fn["locals"][x] for x in _locals_of(b)])
+        return mentions and ("const" in idx or _is_const_local(fn, blk, idx))
+    if kind == "assert" and detail == "Overflow:Add:u16" and "assert" in t:
+        for s_ in b["stmts"]:
+            if "assign" in s_ and isinstance(s_["assign"][1], dict) and "bin_ovf" in s_["assign"][1]:
+                ops = s_["assign"][1]["bin_ovf"][1:]
+                names = []
+                for o in ops:
+                    pl = o.get("copy") or o.get("move")
+                    if pl is None:
+                        return False
+                    names.append(_origin_field(fn, blk, pl))
+                return all(nm in ("x", "y", "width", "height") for nm in names)
+    return False
+
+
+def _locals_of(b):
+    out = set()
+
+    def rec(x):
+        if isinstance(x, dict):
+            if isinstance(x.get("local"), int):
+                out.add(x["local"])
+            for v in x.values():
+                rec(v)
+        elif isinstance(x, list):
+            for v in x:
+                rec(v)
+    rec(b["stmts"])
+    rec(b["term"])
+    return out
+
+
+def _is_const_local(fn, blk, op):
+    pl = op.get("copy") or op.get("move") if isinstance(op, dict) else None
+    if not pl or pl["proj"]:
+        return False
+    for s_ in fn["blocks"][blk]["stmts"]:
+        if "assign" in s_ and not s_["assign"][0]["proj"] and s_["assign"][0]["local"] == pl["local"]:
+            rv = s_["assign"][1]
+            return isinstance(rv, dict) and "use" in rv and "const" in rv["use"]
+    return False
+
+
+def _origin_field(fn, blk, pl, depth=0):
+    """name of the struct field a (possibly copied, through single-assignment temporaries) operand was read from"""
+    names = [pj.get("name") for pj in pl["proj"] if "field" in pj]
+    if names:
+        return names[-1]
+    if depth > 3:
+        return None
+    found = []
+    for b_ in fn["blocks"]:
+        for s_ in b_["stmts"]:
+            if "assign" in s_ and not s_["assign"][0]["proj"] and s_["assign"][0]["local"] == pl["local"]:
+                rv = s_["assign"][1]
+                u = (rv.get("use") or {}) if isinstance(rv, dict) else {}
+                src = u.get("copy") or u.get("move")
+                nm = [pj.get("name") for pj in src["proj"] if "field" in pj] if src else []
+                if src and not nm and not src["proj"]:
+                    found.append(_origin_field(fn, blk, src, depth + 1))
+                else:
+                    found.append(nm[-1] if nm else None)
+    # a temporary assigned in one place only (compiler temporaries are)
+    return found[0] if len(found) == 1 else None
+
+
+# sites allowed by their shape wherever they sit: (shape name) -> (reason, number of such sites confirmed on the pinned tree)
+SHAPE_ALLOW = {
+    "rect-index": ("a collection of layout rectangles (Layout::split over a literal constraint list) indexed with a literal", None),
+    "rect-coordinate-sum": ("sum of two u16 coordinates of a layout rectangle inside the u16 terminal area", None),
+}
+
+
 def ui_panic_rule(rep, prog):
     rid = rep.rule("R2", "every panic site reachable from the key/mouse handlers, the draw functions and the statistics update is allow-listed with a reason (anything else can crash the client on an operator action)")
     fns = reachable_fns(prog, UI_ROOTS, {"radar"})
     n = 0
     used = {}
+    shape_used, shape_moved = {}, {}
     for path in sorted(fns):
         fn = prog.fns[path]
         for kind, detail, blk, sp in panic_sites(prog, fn):
@@ -225,8 +322,15 @@ def ui_panic_rule(rep, prog):
             n += 1
             key = (pub_fn(path), "%s:%s" % (kind, detail))
             rep.instance(rid, "%s|%s:%s|%s" % (pub_fn(path), kind, detail, site_where(sp)), sample={"fn": pub_fn(path), "site": "%s:%s" % (kind, detail), "at": site_where(sp), "allowed": ALLOW.get(key)} if n <= 3 else None)
+            shape = None
+            if rect_shape(fn, blk, kind, detail):
+                shape = "rect-coordinate-sum" if detail.startswith("Overflow") else "rect-index"
+                shape_used[shape] = shape_used.get(shape, 0) + 1
             if key in ALLOW:
                 used[key] = used.get(key, 0) + 1
+                continue
+            if shape is not None:
+                shape_moved[shape] = shape_moved.get(shape, 0) + 1
                 continue
             rep.violation("R2", "%s:%s:%s" % (pub_fn(path), kind, detail), "%s: unguarded panic site %s %s at %s is reachable from an operator action / redraw" % (pub_fn(path), kind, detail, site_where(sp)), site=site_where(sp))
     # an allow-listed reason covers the sites counted when it was written, not later additions of the same kind in that function
@@ -234,6 +338,12 @@ def ui_panic_rule(rep, prog):
         lim = ALLOW_COUNT.get(key, 1)
         if cnt > lim:
             rep.violation("R2", "%s:%s:more-sites" % key, "%s now has %d panic sites of kind %s; the allow-listed reason was confirmed for %d (\"%s\")" % (key[0], cnt, key[1], lim, ALLOW[key]))
+    # sites of an allow-listed shape may move between functions (extraction of a helper), but their number may not grow
+    for shape, cnt in sorted(shape_used.items()):
+        lim = SHAPE_COUNT.get(shape, 0)
+        rep.instance(rid, "shape|%s" % shape, sample={"shape": shape, "sites": cnt, "confirmed": lim, "outside_their_listed_function": shape_moved.get(shape, 0)})
+        if cnt > lim:
+            rep.violation("R2", "shape:%s:more-sites" % shape, "%d panic sites of shape '%s' (%s); %d were confirmed" % (cnt, shape, SHAPE_ALLOW[shape][0], lim))
     rep.extra["allow_list_use"] = {"%s|%s" % k: v for k, v in sorted(used.items())}
     rep.floor("UI functions scanned", 12, len(fns))
     rep.floor("UI panic sites inventoried", 10, n)
